@@ -3,8 +3,13 @@ import PySMT.Spec.Subst
 /-!
 # C05 — the walker callbacks compute the documented replacement
 
-`substG false` (MGSubstituter) is `mgSpec`, `substG true` (MSSubstituter) is `msSpec`, for every
-map, every interpretation handler and every term; `interpret` is `instantiate`.
+`substG false` (MGSubstituter) is `mgSpec Build.rebuild`, `substG true` (MSSubstituter) is
+`msSpec Build.rebuild`, for every map, every interpretation handler and every term; `interpret` is
+`instantiate Build.rebuild`. The specification functions are parametric in the constructor layer; the
+content of these theorems is: the post-order callbacks with their lookups (original node for MG, rebuilt
+node for MS; restricted map and fresh walk at a binder; interpretation handler at an application) compute
+the top-down "outermost key first" / bottom-up "rebuild, then look the result up" recursions over the
+same constructor layer.
 -/
 namespace PySMT.Subst
 open PySMT.Build PySMT.SubstSpec
@@ -35,10 +40,10 @@ local macro "spec_cases" op:ident p:ident h:ident : tactic => `(tactic| (
     split <;> simp_all))
 
 theorem mgSpec_node (h : FnHandler) (σ : TMap) (op : Op) (args : List Term) (p : Payload) :
-    mgSpec h σ (.node op args p) =
+    mgSpec rebuild h σ (.node op args p) =
       (match find σ (.node op args p) with
        | some v => v
-       | none => build h op p (args.map (mgSpec h (bodyMap σ op p)))) := by
+       | none => build h op p (args.map (mgSpec rebuild h (bodyMap σ op p)))) := by
   rw [mgSpec.eq_def]
   simp only
   generalize find σ (.node op args p) = o
@@ -49,46 +54,61 @@ theorem mgSpec_node (h : FnHandler) (σ : TMap) (op : Op) (args : List Term) (p 
     spec_cases op p h
 
 theorem msSpec_node (h : FnHandler) (σ : TMap) (op : Op) (args : List Term) (p : Payload) :
-    msSpec h σ (.node op args p) =
-      (find σ (build h op p (args.map (msSpec h (bodyMap σ op p))))).getD
-        (build h op p (args.map (msSpec h (bodyMap σ op p)))) := by
+    msSpec rebuild h σ (.node op args p) =
+      (find σ (build h op p (args.map (msSpec rebuild h (bodyMap σ op p))))).getD
+        (build h op p (args.map (msSpec rebuild h (bodyMap σ op p)))) := by
   rw [msSpec.eq_def]
   simp only
   have key : (match op, p with
-      | .forall_, .qvars vs => rebuild op p (args.map (msSpec h (below σ vs)))
-      | .exists_, .qvars vs => rebuild op p (args.map (msSpec h (below σ vs)))
-      | .function, .sym f => ((h f (args.map (msSpec h σ))).getD (rebuild op p (args.map (msSpec h σ))))
-      | _, _ => rebuild op p (args.map (msSpec h σ))) =
-      build h op p (args.map (msSpec h (bodyMap σ op p))) := by
+      | .forall_, .qvars vs => rebuild op p (args.map (msSpec rebuild h (below σ vs)))
+      | .exists_, .qvars vs => rebuild op p (args.map (msSpec rebuild h (below σ vs)))
+      | .function, .sym f => ((h f (args.map (msSpec rebuild h σ))).getD (rebuild op p (args.map (msSpec rebuild h σ))))
+      | _, _ => rebuild op p (args.map (msSpec rebuild h σ))) =
+      build h op p (args.map (msSpec rebuild h (bodyMap σ op p))) := by
     spec_cases op p h
   exact key ▸ rfl
 
-theorem substG_mg_eq_spec (h : FnHandler) : ∀ (t : Term) (σ : TMap), substG false h σ t = mgSpec h σ t
+theorem substG_mg_eq_spec (h : FnHandler) : ∀ (t : Term) (σ : TMap), substG false h σ t = mgSpec rebuild h σ t
   | .node op args p, σ => by
-    have ih : ∀ σ', args.map (substG false h σ') = args.map (mgSpec h σ') :=
+    have ih : ∀ σ', args.map (substG false h σ') = args.map (mgSpec rebuild h σ') :=
       fun σ' => List.map_congr_left (fun a _ => substG_mg_eq_spec h a σ')
     rw [substG, mgSpec_node]
     simp only [Bool.false_eq_true, if_false, lookup_eq_find, ih]
     cases find σ _ <;> rfl
 
-theorem substG_ms_eq_spec (h : FnHandler) : ∀ (t : Term) (σ : TMap), substG true h σ t = msSpec h σ t
+theorem substG_ms_eq_spec (h : FnHandler) : ∀ (t : Term) (σ : TMap), substG true h σ t = msSpec rebuild h σ t
   | .node op args p, σ => by
-    have ih : ∀ σ', args.map (substG true h σ') = args.map (msSpec h σ') :=
+    have ih : ∀ σ', args.map (substG true h σ') = args.map (msSpec rebuild h σ') :=
       fun σ' => List.map_congr_left (fun a _ => substG_ms_eq_spec h a σ')
     rw [substG, msSpec_node]
     simp only [if_true, lookup_eq_find, ih]
     cases find σ _ <;> rfl
 
+theorem upsert_eq_dictInsert (k v : Term) : ∀ d : TMap, upsert k v d = dictInsert k v d
+  | [] => rfl
+  | (k', v') :: rest => by
+    unfold upsert dictInsert
+    split
+    · rfl
+    · rw [upsert_eq_dictInsert k v rest]
+
+theorem dictOfPairs_eq_pyDict (ps : TMap) : dictOfPairs ps = pyDict ps := by
+  unfold dictOfPairs pyDict
+  congr 1
+  funext d kv
+  exact upsert_eq_dictInsert kv.1 kv.2 d
+
 theorem interpret_eq_instantiate (envMs : Bool) (fi : FunInterp) (as : List Term) :
-    interpret envMs fi as = instantiate envMs ⟨fi.formals, fi.body⟩ as := by
+    interpret envMs fi as = instantiate rebuild envMs ⟨fi.formals, fi.body⟩ as := by
   unfold interpret instantiate
+  rw [dictOfPairs_eq_pyDict]
   cases envMs
   · simp only [Bool.false_eq_true, if_false]; exact substG_mg_eq_spec _ _ _
   · simp only [if_true]; exact substG_ms_eq_spec _ _ _
 
 def defsOf (ι : IMap) : List (Sym × Def) := ι.map (fun sf => (sf.1, ⟨sf.2.formals, sf.2.body⟩))
 
-theorem handlerOf_eq_appOf (envMs : Bool) : ∀ (ι : IMap), handlerOf envMs ι = appOf envMs (defsOf ι)
+theorem handlerOf_eq_appOf (envMs : Bool) : ∀ (ι : IMap), handlerOf envMs ι = appOf rebuild envMs (defsOf ι)
   | [] => rfl
   | (g, fi) :: rest => by
     funext f as
